@@ -9,6 +9,8 @@
 mod kad;
 mod request_response;
 mod swarm;
+#[cfg(maidsafe_safe_network_verif)]
+mod verif;
 
 use crate::{driver::SwarmDriver, error::Result};
 use core::fmt;
